@@ -129,6 +129,26 @@ def wiring(ctx, p):
                     ctx.ob(rule, f"{ck}.{pname}:{tgt.name}:branch", ("self.use_mask_in_fit", True) in tests and kwv.get("mask") == "self.mask", where=m, node=node, construct=f"under {tests}; mask={kwv.get('mask')}",
                            message="the masked variant must be used exactly under `self.use_mask_in_fit`, with mask=self.mask")
     ctx.require_count(rule, "wiring instances in the fit classes", n_inst, 22)
+    # a statistic that is judged on AbstractFit (its util wiring above, the signal-to-noise form in C08.snr) is what every fit class reports only if no subclass replaces it
+    # by something else: an override must go through the util of the same name or through super() - both judged above - and not around them
+    base = p.cls("autoarray.fit.fit_dataset:AbstractFit")
+    judged = {pn for pn, m_ in base.methods.items() if (m_.is_property or m_.is_cached) and (prop_calls(p, m_) or pn == "signal_to_noise_map")}
+    for sub in base.all_subclasses():
+        if ".mock" in sub.module.name or sub.module.name.startswith("test_"):
+            continue
+        for pn in sorted(judged):
+            m_ = sub.methods.get(pn)
+            if m_ is None:
+                continue
+            okv = bool(prop_calls(p, m_))
+            if not okv and pn == "signal_to_noise_map":
+                # complex data: the same clipped quotient taken of the real and of the imaginary parts of the fit's own data and noise map
+                qs = paths.returns(paths.path_summaries(m_) or [])
+                parts = [_snr_forms(f"self.data.{c_}/self.noise_map.{c_}") for c_ in ("real", "imag")]
+                okv = len(qs) == 1 and any(qs[0].text in (f"{r_}+1j*{i_}", f"{r_}+1.0j*{i_}", f"1j*{i_}+{r_}", f"1.0j*{i_}+{r_}", f"{r_}+{i_}*1j", f"{r_}+{i_}*1.0j", f"{i_}*1j+{r_}", f"{i_}*1.0j+{r_}") for r_ in parts[0] for i_ in parts[1])
+            ctx.ob(rule, f"{sub.key}.{pn}:override", okv, where=m_, node=m_.node, construct=f"{sub.name}.{pn} overrides {base.name}.{pn}: " + "; ".join(norm_text(r.value)[:80] for r in wire.returns_of(m_)),
+                   message=f"`{pn}` is defined by AbstractFit from the fit's own data, noise map and model; this override computes it some other way (neither the util of the same name nor super().{pn}), "
+                           f"so the statistic of a {sub.name} no longer follows the definition (e.g. it ignores what the fit subtracts from the data)")
     # in FitDataset every maskable statistic has the masked branch
     c = p.cls("autoarray.fit.fit_dataset:FitDataset")
     for pname in ("residual_map", "normalized_residual_map", "chi_squared_map", "chi_squared", "noise_normalization", "residual_flux_fraction_map"):
@@ -213,6 +233,11 @@ def evidence(ctx, p, K):
     ctx.ob(rule, mm.key, ok, where=mm, node=mm.node, construct=norm_text(dels[0]) if dels else "", message="the reduced reconstruction must drop the no-regularization entries")
 
 
+def _snr_forms(base: str):
+    """the accepted spellings of `base` with its negatives clipped to zero on a fresh array"""
+    return (f"__store__({base},{base}<0,0)", f"__store__({base},{base}<0,0.0)", f"np.where({base}<0,0,{base})", f"np.where({base}<0,0.0,{base})", f"({base}).clip(min=0)", f"np.clip({base},0,None)", f"np.maximum({base},0)")
+
+
 def snr(ctx, p):
     """signal_to_noise_map clips negatives to zero on a FRESH array (never on the data)"""
     rule = "C08.snr"
@@ -222,8 +247,7 @@ def snr(ctx, p):
             raise AnchorMissing(f"{ck}.signal_to_noise_map")
         PS = paths.path_summaries(m) or []
         rets = paths.returns(PS)
-        base = "self.data/self.noise_map"
-        forms = (f"__store__({base},{base}<0,0)", f"__store__({base},{base}<0,0.0)", f"np.where({base}<0,0,{base})", f"np.where({base}<0,0.0,{base})", f"({base}).clip(min=0)", f"np.clip({base},0,None)", f"np.maximum({base},0)")
+        forms = _snr_forms("self.data/self.noise_map")
         ok = len(PS) == 1 and len(rets) == 1 and rets[0].text in forms
         # no store into anything that is not the fresh quotient
         writes = [e for q in PS for e in q.effects if isinstance(e, ast.Assign)] + [n for n in m.body_nodes() if isinstance(n, ast.AugAssign)]
